@@ -181,7 +181,9 @@ func (in *Interp) callFnB(fn *ssa.Function, args []*Val, bound []*Val) *Result {
 		}
 	}
 	in.runBody(act)
-	act.ret = stripFrom(act.ret, 0)
+	if len(in.frames) > 0 { // the entry's own result keeps its load markers (rules inspect them)
+		act.ret = stripFrom(act.ret, 0)
+	}
 	res := &Result{Ret: act.ret, Recs: act.recs, Fn: fn, Layer: in.Layer[fnPkgShort(fn)]}
 	in.memo[key] = res
 	return res
